@@ -300,6 +300,21 @@ Definition handle_frame (c : rcfg) (inner : bytes -> dpkt) (st : rstate) (dec : 
   end.
 End Recv.
 
+(* InternalTransport.Receive (fw/face/internal-transport.go): the management side of the internal face takes each frame the
+   internal face's own link service emitted: spec.ReadPacket, then packet.LpPacket.Fragment, .PitToken and *IncomingFaceId -
+   a nil LpPacket or a nil IncomingFaceId is a nil dereference in the management goroutine. *)
+Inductive ires := IDrop | IPanic | IOk (frag tok : bytes) (inface : N).
+Definition internal_receive (d : dpkt) : ires :=
+  match d with
+  | DErr => IDrop
+  | DPkt _ _ None => IPanic
+  | DPkt _ _ (Some LP) =>
+    match f_frag LP with
+    | None | Some [] => IDrop
+    | Some fr => match f_inface LP with None => IPanic | Some i => IOk fr (f_tok LP) i end
+    end
+  end.
+
 (* ------------------------------------------------------------------------------------------------ *)
 (* decoder for the frames the link service emits (generated LpPacket/Packet parse loops restricted to the fields
    above; anything else is reported as DUnsupported and is outside the send -> receive theorems) *)
